@@ -95,6 +95,19 @@ impl Ctx {
             }
             S2kParams::Unprotected => None,
         });
+        // the parameters as the model's decision functions see them: key version, usage, S2K type, weak hash
+        let rules_args: Vec<String> = {
+            let weak = |h: &HashAlgorithm| matches!(h, HashAlgorithm::Md5 | HashAlgorithm::Sha1 | HashAlgorithm::Ripemd160);
+            let (var, s2k): (&str, Option<&StringToKey>) = match params { S2kParams::Cfb { s2k, .. } => ("cfb", Some(s2k)), S2kParams::MalleableCfb { s2k, .. } => ("malleable", Some(s2k)), S2kParams::Aead { s2k, .. } => ("aead", Some(s2k)), _ => ("legacy", None) };
+            let (t, w) = match s2k { Some(StringToKey::Simple { hash_alg }) => ("0", weak(hash_alg)), Some(StringToKey::Salted { hash_alg, .. }) => ("1", weak(hash_alg)), Some(StringToKey::IteratedAndSalted { hash_alg, .. }) => ("3", weak(hash_alg)), Some(StringToKey::Argon2 { .. }) => ("4", false), Some(_) => ("9", false), None => ("0", true) };
+            vec![(if sk.ver() == KeyVersion::V6 { 6 } else { 4 }).to_string(), var.into(), t.into(), (w as u8).to_string()]
+        };
+        // locking through the API: accepted exactly where the model says so
+        // (AEAD modes are only implemented over AES: a refusal for another cipher says nothing about the parameter rules)
+        let aes_or_cfb = match params { S2kParams::Aead { sym_alg, .. } => matches!(sym_alg, SymmetricKeyAlgorithm::AES128 | SymmetricKeyAlgorithm::AES192 | SymmetricKeyAlgorithm::AES256), _ => true };
+        if matches!(params, S2kParams::Cfb { .. } | S2kParams::Aead { .. }) && aes_or_cfb {
+            if let Ok(b) = &built { self.out.case("lockok", &rules_args, &["lockok".into(), kname.into(), vname.into()], if b.is_some() { "1" } else { "0" }, None, &format!("{cls}-lock-decision")); }
+        }
         let locked = match built {
             Ok(Some(k)) => k,
             Ok(None) => { self.out.case("", &[], &["lock".into(), kname.into(), vname.into(), hx(pw)], "lock-refused", Some(true), &format!("{cls}-lock-refused")); return; }
@@ -129,6 +142,8 @@ impl Ctx {
         // --- right password
         let orig = sk.to_bytes().unwrap_or_default();
         let r = guarded(|| { let mut k = k3.clone(); k.unlock_in_place(&password).map(|_| k.to_bytes().unwrap_or_default()) });
+        // unlocking an honestly locked key with its password: accepted exactly where the model says so
+        if let Ok(x) = &r { self.out.case("unlockok", &rules_args, &["unlockok".into(), kname.into(), vname.into(), hx(&w), hx(pw)], if x.is_ok() { "1" } else { "0" }, None, &format!("{cls}-unlock-decision")); }
         match r {
             Ok(Ok(b)) => self.out.case("", &[], &rp, if b == orig { "restored" } else { "DIFFERENT-MATERIAL" }, Some(b == orig), &format!("{cls}-unlock")),
             Ok(Err(e)) => self.out.case("", &[], &rp, &format!("unlock-failed: {}", &e.to_string()[..e.to_string().len().min(80)]), Some(false), &format!("{cls}-unlock-failed")),
